@@ -1,3 +1,4 @@
+import copy
 import operator
 from contextlib import contextmanager
 from functools import reduce, total_ordering
@@ -131,7 +132,13 @@ def as_model(x):
 
 
 def replace_hy_obj(obj, other):
-    return as_model(obj).replace(other)
+    model = as_model(obj)
+    if model is obj and not isinstance(model, Sequence):
+        # `as_model` returns an atom that's already a model as it is.
+        # Copy it so that filling in its position doesn't mutate the
+        # caller's model (e.g., the argument of `hy.macroexpand`).
+        model = copy.copy(model)
+    return model.replace(other)
 
 
 def repr_indent(obj):
